@@ -19,6 +19,8 @@
 //   different length, shorter not a suffix of longer   => Err(MergeConflict)
 //   and never a panic.
 //
+// `#[kani::unwind(5)]`: `for (..) in other.xpub` consumes a B-tree; its `first_leaf_edge` descent loop is unwound forever by
+// CBMC without a bound (measured).  5 also bounds the path loops (<= 3 elements + exit).
 // Stubs: the conflict message formats the xpub (`Display` = base58check = SHA-256d + libsecp serialize), which CBMC cannot
 // execute; `base58::encode_check_to_fmt` is replaced by a no-op and `Xpub::encode` by a constant.  Key comparison in the
 // BTreeMap goes through the assumed `ec_pubkey_cmp` model.  Assumed: those functions terminate without panicking.
@@ -154,6 +156,7 @@ macro_rules! xpub_with3 { ($mode:expr) => { xpub_dispatch!($mode; (0,3),(1,3),(2
 //@ harness: c14_global_xpub_no_panic_le2 class=B tier=quick bound="one xpub entry per operand, derivation paths of every length pair in 0..=2 x 0..=2, all contents symbolic" props=C10,C14
 //@ clause: Global::merge never panics on any pair of key sources for the same xpub (EXPECTED to fail on the pinned tree: D4, `derivation1.len() - derivation2.len()` underflows when the incoming path is shorter and not a suffix)
 #[kani::proof]
+#[kani::unwind(5)]
 #[kani::stub(zffi::secp256k1_ec_pubkey_cmp, model_ec_pubkey_cmp)]
 #[kani::stub(b58::encode_check_to_fmt, model_encode_check_to_fmt)]
 #[kani::stub(XpubT::encode, model_xpub_encode)]
@@ -162,6 +165,7 @@ fn c14_global_xpub_no_panic_le2() { xpub_all_le2!(Mode::NoPanic); }
 //@ harness: c14_global_xpub_no_panic_len3 class=B tier=thorough bound="length pairs with one path of length 3" props=C10,C14
 //@ clause: same, path length pairs (0..=3, 3) and (3, 0..=2) (EXPECTED to fail: D4)
 #[kani::proof]
+#[kani::unwind(5)]
 #[kani::stub(zffi::secp256k1_ec_pubkey_cmp, model_ec_pubkey_cmp)]
 #[kani::stub(b58::encode_check_to_fmt, model_encode_check_to_fmt)]
 #[kani::stub(XpubT::encode, model_xpub_encode)]
@@ -170,6 +174,7 @@ fn c14_global_xpub_no_panic_len3() { xpub_with3!(Mode::NoPanic); }
 //@ harness: c14_global_xpub_reconcile_le2 class=B tier=quick bound="path length pairs 0..=2 x 0..=2" props=C14
 //@ clause: key sources that are equal or suffix-related in either direction merge successfully and the entry with the longer derivation (and its fingerprint) is the result
 #[kani::proof]
+#[kani::unwind(5)]
 #[kani::stub(zffi::secp256k1_ec_pubkey_cmp, model_ec_pubkey_cmp)]
 #[kani::stub(b58::encode_check_to_fmt, model_encode_check_to_fmt)]
 #[kani::stub(XpubT::encode, model_xpub_encode)]
@@ -178,6 +183,7 @@ fn c14_global_xpub_reconcile_le2() { xpub_all_le2!(Mode::Reconcile); }
 //@ harness: c14_global_xpub_reconcile_len3 class=B tier=thorough bound="length pairs with one path of length 3" props=C14
 //@ clause: same as c14_global_xpub_reconcile_le2 for length pairs involving 3
 #[kani::proof]
+#[kani::unwind(5)]
 #[kani::stub(zffi::secp256k1_ec_pubkey_cmp, model_ec_pubkey_cmp)]
 #[kani::stub(b58::encode_check_to_fmt, model_encode_check_to_fmt)]
 #[kani::stub(XpubT::encode, model_xpub_encode)]
@@ -186,6 +192,7 @@ fn c14_global_xpub_reconcile_len3() { xpub_with3!(Mode::Reconcile); }
 //@ harness: c14_global_xpub_conflict_le2 class=B tier=quick bound="path length pairs 0..=2 x 0..=2" props=C14
 //@ clause: key sources that are neither equal nor suffix-related (equal path with different fingerprint, same length different path, different length not a suffix) yield Err(MergeConflict) (EXPECTED to fail on the pinned tree: D4, equal path + different fingerprint is silently replaced; and the underflow panic)
 #[kani::proof]
+#[kani::unwind(5)]
 #[kani::stub(zffi::secp256k1_ec_pubkey_cmp, model_ec_pubkey_cmp)]
 #[kani::stub(b58::encode_check_to_fmt, model_encode_check_to_fmt)]
 #[kani::stub(XpubT::encode, model_xpub_encode)]
@@ -194,6 +201,7 @@ fn c14_global_xpub_conflict_le2() { xpub_all_le2!(Mode::Conflict); }
 //@ harness: c14_global_xpub_conflict_len3 class=B tier=thorough bound="length pairs with one path of length 3" props=C14
 //@ clause: same as c14_global_xpub_conflict_le2 for length pairs involving 3 (EXPECTED to fail: D4)
 #[kani::proof]
+#[kani::unwind(5)]
 #[kani::stub(zffi::secp256k1_ec_pubkey_cmp, model_ec_pubkey_cmp)]
 #[kani::stub(b58::encode_check_to_fmt, model_encode_check_to_fmt)]
 #[kani::stub(XpubT::encode, model_xpub_encode)]
@@ -202,6 +210,7 @@ fn c14_global_xpub_conflict_len3() { xpub_with3!(Mode::Conflict); }
 //@ harness: c14_global_xpub_disjoint class=B tier=quick bound="two different concrete xpubs, paths of length 1" props=C14
 //@ clause: xpub entries for different keys: the result holds both (union), in both merge orders
 #[kani::proof]
+#[kani::unwind(5)]
 #[kani::stub(zffi::secp256k1_ec_pubkey_cmp, model_ec_pubkey_cmp)]
 fn c14_global_xpub_disjoint() {
     let x1 = the_xpub();
